@@ -60,7 +60,8 @@ def tree_key(tier):
     files += [os.path.join(REPO, "Cargo.toml"), os.path.join(REPO, "Cargo.lock"), FINDINGS]
     for f in sorted(files):
         if os.path.exists(f):
-            h.update(f.encode())
+            # (paths relative to the repository under check: a scratch copy with the same content has the same key)
+            h.update((os.path.relpath(f, REPO) if f.startswith(REPO + os.sep) else f).encode())
             h.update(open(f, "rb").read())
     h.update(tier.encode())
     return h.hexdigest()[:24]
@@ -698,7 +699,11 @@ def selftest(pid):
             meta = json.load(open(os.path.join(d, "meta.json")))
         except Exception:
             continue
-        if pid not in meta.get("caught_by", []):
+        # each stored change is replayed once: by the check of the property it was written against (or, when that
+        # check is not among those recorded as reporting it, by the first one recorded)
+        cb = meta.get("caught_by", [])
+        owner = meta.get("property") if meta.get("property") in cb else (cb[0] if cb else None)
+        if pid != owner:
             continue
         scratch = tempfile.mkdtemp(prefix="verif_seed_")
         try:
